@@ -135,10 +135,14 @@ Definition c_blocks_disconnected (retain_on_disconnect : bool) (c : cache) (fork
 (** * lib.rs: ChainNotifier *)
 Inductive event := EDisc (x h : Z) | EConn (x h : Z) (full : bool).
 
-(** [ChainNotifier::look_up_previous_header]: the cache first, the poller otherwise. *)
+(** [ChainNotifier::look_up_previous_header]: the cache first (with the same height and chainwork
+    linkage checks that the poller applies to fetched headers), the poller otherwise. *)
 Definition look_up_prev (T : tree) (src : oracle) (c : cache) (v : vh) (n : nat) : res vh * nat :=
   match c_lookup c (v_prev v) with
-  | Some p => (Ok p, n)
+  | Some p =>
+    if negb (v_height v =? v_height p + 1) then (Err (Persistent, "invalid block height"%string), n)
+    else if negb (v_cwork v =? v_cwork p + v_bwork v) then (Err (Persistent, "invalid chainwork"%string), n)
+    else (Ok p, n)
   | None => poller_prev T src v n
   end.
 
@@ -152,7 +156,12 @@ Fixpoint find_diff (fuel : nat) (T : tree) (src : oracle) (c : cache) (cur prev 
   match fuel with
   | O => (DOutOfFuel, n)
   | S fuel' =>
-    if v_hash cur =? v_hash prev then (DOk cur asc, n)
+    if v_hash cur =? v_hash prev then
+      (* both walks met: the metadata supplied on the way down from the new tip must agree with
+         what is known for the old chain *)
+      if negb (v_height cur =? v_height prev) then (DErr (Persistent, "invalid block height"%string), n)
+      else if negb (v_cwork cur =? v_cwork prev) then (DErr (Persistent, "invalid chainwork"%string), n)
+      else (DOk cur asc, n)
     else
       let current_height := v_height cur in
       let previous_height := v_height prev in
@@ -417,7 +426,7 @@ Definition true_vh (x : Z) (nd : node) : vh :=
 Definition tv (T : tree) (x : Z) : vh :=
   match T x with Some nd => true_vh x nd | None => true_vh x {| n_prev := 0; n_height := 0; n_bwork := 0; n_cwork := 0; n_pow := false; n_wit := false |} end.
 
-Open Scope string_scope.
+Local Open Scope string_scope.
 Definition zs (z : Z) : string := NilZero.string_of_int (Z.to_int z).
 Definition ns (n : nat) : string := zs (Z.of_nat n).
 Fixpoint underscore (s : string) : string :=
